@@ -257,7 +257,8 @@ func (m *AtomicityMonitor) OnTx(h *History, o *TxObs) {
 	// The model says the transaction passes authentication: cross-check with the error.
 	es := o.Err.Error()
 	// ("balance too low" is also returned by handlers after authentication and is therefore not usable here.)
-	if strings.Contains(es, "invalid nonce") || strings.Contains(es, "reserved account") {
+	// (the vault application has its own "vault: invalid nonce" for action nonces.)
+	if strings.Contains(es, "transaction: invalid nonce") || strings.Contains(es, "reserved account") {
 		m.ModelDisagree++
 		m.Rep.Inconclusive(fmt.Sprintf("authentication model disagrees with the code: model=pass error=%q (height %d tx %d)", es, o.Height, o.Index))
 		return
